@@ -149,7 +149,9 @@ func genReuse(g *vlib.G) {
 	methods := allMethods()
 	K := vlib.Pick(g, 8, 14)
 	p1s := []*objective{sweepSPD()[1], rosenbrock2()}
-	p2s := []*objective{cosh1(), sweepSPD()[2]}
+	// P2: another dimension below and above P1's, and the same dimension (buffers are then
+	// reused without reallocation) with a longer run B.
+	p2s := []*objective{cosh1(), sweepSPD()[2], catalogue()[1]}
 	for mi := range methods {
 		m := &methods[mi]
 		lss := []int{0}
@@ -185,7 +187,11 @@ func genReuse(g *vlib.G) {
 				for _, p2 := range p2s {
 					// run B: a bounded run with a recorder, so that every step is observable
 					cfgB := func(method optimize.Method) *runCfg {
-						return &runCfg{m: m, ls: ls, o: p2, limF: 40, limIt: 6, conc: conc, recMode: 0, trace: true, method: method}
+						c := &runCfg{m: m, ls: ls, o: p2, limF: 40, limIt: 6, conc: conc, recMode: 0, trace: true, method: method}
+						if p2.name == "Beale" {
+							c.limF, c.limIt = 160, 30
+						}
+						return c
 					}
 					fresh := exec(cfgB(nil))
 					if fresh == nil {
@@ -219,7 +225,7 @@ func genReuse(g *vlib.G) {
 						got := observable(rB)
 						if d := firstDiff(want, got); d != "" {
 							differing++
-							fail(sub, "method-reuse-state-leak", "run B on %s with a %s value that has been through run A (%s; A ended %s) differs from run B with a fresh value: %s; reused result: %s; fresh result: %s",
+							fail(sub, "reuse-state-leak-"+strings.ToLower(strings.ReplaceAll(m.name, "/", "-")), "run B on %s with a %s value that has been through run A (%s; A ended %s) differs from run B with a fresh value: %s; reused result: %s; fresh result: %s",
 								p2.name, m.name, sv.name, describe(rA), d, describe(rB), describe(fresh))
 							continue
 						}
